@@ -1652,7 +1652,8 @@ func (l *Lang) foldSteps(res *report.RuleResult, root ast.Node, keyPrefix, subje
 // non-empty on that path: the symbol's productions never yield an empty list, and either never yield nil or
 // the path tested the value against nil; a list built in the action with an element; a field of a carrier
 // object that every production of the symbol fills with a non-empty list; or a length test on the path.
-// Elements taken at a loop variable are bounded by the loop and are not obligations of this rule.
+// Elements taken at a loop variable are bounded by the loop and are not obligations of this rule, nor are
+// index expressions on anything that is not a list of semantic values (a package-level table).
 func (l *Lang) ListIndex(shapes map[string]*Shape) *report.RuleResult {
 	res := report.NewResult("list-index")
 	g := l.L.G
@@ -1729,6 +1730,17 @@ func (l *Lang) ListIndex(shapes map[string]*Shape) *report.RuleResult {
 			for i := range p.St.Events {
 				ev := &p.St.Events[i]
 				if ev.Kind != "index" {
+					continue
+				}
+				// only lists that come from the semantic values: a right-hand-side symbol, a carrier's field, a list
+				// built here, a reslice of one; a package-level table indexed by a constant is not this rule's
+				switch b := ev.Args[0].(type) {
+				case Sym, ListV, Slc, Idx:
+				case Part:
+					if _, isSym := b.Base.(Sym); !isSym {
+						continue
+					}
+				default:
 					continue
 				}
 				k := fmt.Sprintf("%s:%s/%s", l.L.Label, g.Key(a.Prod), ev.Args[2])
